@@ -123,8 +123,7 @@ def explore(name, harness=None, on_path=None, workers=None, time_limit=None, tim
             pending = []
             for res in pool.imap_unordered(_task, batch, chunksize=1):
                 pending.extend(merge(res))
-            if len(batch) >= 4 * workers:
-                b = min(budget, b * 2)
+            b = min(budget, b * 2)
     else:
         while pending:
             if time_limit is not None and time.time() - t0 > time_limit:
